@@ -114,6 +114,43 @@ def run(ctx: Ctx) -> None:
         got = [dict(x) for x in h["d1"]["layers"]] if o.kind == "return" else o.exc
         want = expect([{"name": nm} for nm in names])
         ctx.check(got == want, "U3", f"list positions: {name}", loc_u, f"{len(want)} item(s) left", f"update of a list of {len(shape)} objects with the patch list ({name}) gives {got!r}, expected {want!r}: entries after a delete marker are applied to the wrong object")
+    if ctx.tier == "thorough":
+        # small-scope exhaustive: every d1 list of 0..3 objects x every patch list of 0..3 entries over
+        # {None, {}, delete marker, change of an existing key, new key}, against the positional law
+        import itertools
+
+        kinds = ["none", "empty", "delete", "change", "add"]
+        n_cases = 0
+        bad_cases = []
+        for n1 in range(0, 4):
+            for n2 in range(0, 4):
+                for combo in itertools.product(kinds, repeat=n2):
+                    names = [V(f"n{i}") for i in range(n1)]
+
+                    def mk2(combo=combo):
+                        out = []
+                        for j, kd in enumerate(combo):
+                            out.append(None if kd == "none" else HDict() if kd == "empty" else HDict({"__delete__": True}) if kd == "delete" else HDict({"name": V(f"c{j}")}) if kd == "change" else HDict({"color": V(f"x{j}")}))
+                        return HDict({"layers": out})
+
+                    o, h = do_update(lambda names=names: HDict({"layers": [HDict({"name": nm}) for nm in names]}), mk2)
+                    want = []
+                    for j in range(max(n1, n2)):
+                        orig = {"name": names[j]} if j < n1 else {}
+                        kd = combo[j] if j < n2 else "none"
+                        if kd == "delete":
+                            continue
+                        if kd == "change":
+                            orig = dict(orig, name=V(f"c{j}"))
+                        elif kd == "add":
+                            orig = dict(orig, color=V(f"x{j}"))
+                        want.append(orig)
+                    got = [dict(x) for x in h["d1"]["layers"]] if o.kind == "return" else o.exc
+                    n_cases += 1
+                    if got != want or snap(h["d2"]) != h["snap2"]:
+                        bad_cases.append((n1, combo, got, want))
+        ctx.units["update_list_shapes_enumerated"] = n_cases
+        ctx.check(not bad_cases, "U3", f"all {n_cases} list / patch-list shapes up to length 3", loc_u, "positional law holds", f"{len(bad_cases)} shapes disagree with the positional law, e.g. a list of {bad_cases[0][0] if bad_cases else ''} objects patched with {bad_cases[0][1] if bad_cases else ''} gives {bad_cases[0][2] if bad_cases else ''!r}, expected {bad_cases[0][3] if bad_cases else ''!r}")
     o, h = do_update(lambda: HDict({"k": a}), lambda: HDict({"__delete__": True}))
     ctx.check(o.kind == "return" and isinstance(o.value, dict) and not o.value, "U3", "root __delete__", loc_u, "", f"{o.value!r}")
 
